@@ -175,6 +175,7 @@ def tasks(tier):
             out.append({"kind": "expr", "depth": 2, "style": "symbol", "lo": lo, "hi": min(len(d2), lo + 16), "provider": provider,
                         "vkind": "int" if provider == "async" else "bool", "quick": quick})
     out.append({"kind": "reject"})
+    out.append({"kind": "paren-pairs"})
     return out
 
 
@@ -187,11 +188,11 @@ BOUNDS = {
     "comparisons; spelled with word operators, symbol operators, and symbol operators without optional blanks; 42 depth-2 trees over three names "
     "(both associations of and/or, not over compounds, comparisons under and/or) in word and tight spelling; each used as cond, as unless, and as an "
     "element of cond=[plain, expr]; comparisons over and/or/not operands with int values; names provided by machine methods (reads logged; values symbolic ints in [-2,2] / bools), and - depth 2, "
-    "symbol spelling - by plain attributes, properties, the model, coroutine methods (plain names only); 27 strings that must be rejected at instantiation, alone and next to valid guard entries.",
+    "symbol spelling - by plain attributes, properties, the model, coroutine methods (plain names only); 5 pairs of expressions differing only in parentheses used together in one cond list; 27 strings that must be rejected at instantiation, alone and next to valid guard entries.",
     "thorough": "leaves also False and 1, word operators with tight comparisons, int values at depth 2.",
 }
 OUTSIDE = "nesting deeper than 2; string/float literals and values; names spelled exactly 'v'; coroutine operands inside expressions (C05, known finding); guard names provided by several objects at once (C12)"
-OBLIGATIONS = ["fired", "blocked", "short-circuit", "chained", "tight-spelling", "rejected-syntax", "rejected-unknown-name", "rejected-outside-grammar", "unless", "list"]
+OBLIGATIONS = ["paren-pair", "fired", "blocked", "short-circuit", "chained", "tight-spelling", "rejected-syntax", "rejected-unknown-name", "rejected-outside-grammar", "unless", "list"]
 ASSUMPTIONS = [
     "read order is compared after collapsing immediately repeated reads of one name: the library reads the middle operand of a chained comparison twice, which tests/test_spec_parser.py pins (xfail 'evaluate once')",
     "valid Python outside the documented grammar (a + b, a.b, a if b else c) must fail when the machine is instantiated; the exception type is not constrained",
@@ -218,9 +219,52 @@ def collapse(seq):
     return out
 
 
+PAREN_PAIRS = [
+    ("alpha or vault and v1", "(alpha or vault) and v1"),
+    ("alpha and vault or v1", "alpha and (vault or v1)"),
+    ("not alpha and vault", "not (alpha and vault)"),
+    ("alpha or vault or v1", "alpha or (vault or v1)"),
+    ("alpha == vault and v1", "alpha == (vault and v1)"),
+]
+
+
+def run_paren_pairs(ctx):
+    """cond=[e1, e2] where e2 is e1 with other parentheses: both are valid, both must be honoured."""
+    from statemachine import State, StateMachine
+    from statemachine.exceptions import InvalidDefinition
+
+    e1, e2 = PAREN_PAIRS[ctx.choose(len(PAREN_PAIRS), "pair")]
+    if ctx.choose(2, "swap"):
+        e1, e2 = e2, e1
+    vals = {n: ctx.sym_int(f"val.{n}", -1, 1) for n in ("alpha", "vault", "v1")}
+    with ctx.notracing():
+        attrs = {"a": State(initial=True), "b": State()}
+        attrs["go"] = attrs["a"].to(attrs["b"], cond=[e1, e2])
+        attrs["back"] = attrs["b"].to(attrs["a"])
+        for n in vals:
+            attrs[n] = (lambda n: lambda self: vals[n])(n)
+            attrs[n].__qualname__ = f"C08P.{n}"
+        cls = type(StateMachine)("C08P", (StateMachine,), attrs)
+    try:
+        sm = cls()
+    except InvalidDefinition as e:
+        raise Mismatch("valid-expression-rejected:list-of-two-differing-in-parentheses", f"cond=[{e1!r}, {e2!r}]: {e}")
+    try:
+        sm.send("go")
+        fired = True
+    except sm.TransitionNotAllowed:
+        fired = False
+    want = bool(eval(e1, {}, dict(vals))) and bool(eval(e2, {}, dict(vals)))  # noqa: S307
+    if fired != want:
+        raise Mismatch("expression-value-differs-from-python:paren-pair", f"cond=[{e1!r}, {e2!r}]: Python says {want}, transition {'fired' if fired else 'blocked'}", {"values": dict(vals)})
+    ctx.cover("paren-pair")
+
+
 def run(ctx, params):
     if params["kind"] == "reject":
         return run_reject(ctx)
+    if params["kind"] == "paren-pairs":
+        return run_paren_pairs(ctx)
     from statemachine import State, StateMachine
     from statemachine.exceptions import InvalidDefinition
 
